@@ -43,7 +43,9 @@ static _Bool autofree;
 static _Bool matchB, matchC;           /* the regex relation for (subscription of B / C, published topic) */
 static const regex_t *regB, *regC;
 int vf_match(const void *reg, const char *topic) {
-    (void)topic;
+    /* the relation under test is over user topics; system topics are kept out of it so that start-up notifications do
+     * not occupy mailbox slots of the bounded pipe (C19 covers system notifications) */
+    if (topic && strncmp(topic, "LIBMODULE_", 10) == 0) return REG_NOMATCH;
     if (reg == (const void *)regB) return matchB ? 0 : REG_NOMATCH;
     if (reg == (const void *)regC) return matchC ? 0 : REG_NOMATCH;
     return REG_NOMATCH;
